@@ -263,6 +263,7 @@ def _run_all(args, pid, subs, seed, jobs, tmp, t0):
     exhaustive_subs = {s[0] for s in subs if s[6]}
     rc = 0
     found_dir = os.path.join(VERIF_DIR, "found", pid)
+    seen_paths = set()
     for sub, v in violations:
         rc = 1
         if v.get("replay_path"):
@@ -273,6 +274,9 @@ def _run_all(args, pid, subs, seed, jobs, tmp, t0):
             with open(path, "w") as f:
                 json.dump({"property": pid, "subcheck": sub, "case": v["case"], "violation": v["violation"],
                            "seed": seed, "tier": args.tier}, f, indent=1, sort_keys=True)
+        if path in seen_paths:
+            continue
+        seen_paths.add(path)
         print("  sub-check %s: %s" % (sub, json.dumps(v["violation"])[:1500]))
         print("VIOLATION property=%s replay=%s" % (pid, os.path.relpath(path, VERIF_DIR)))
 
